@@ -1,9 +1,11 @@
 """C13 -- every embedded policy document is discoverable, exactly once."""
 import copy
 import json
+import random
 
 import core
 import generic_oracle as go
+import schemagen
 from props.c18 import wide
 
 ID = "C13"
@@ -92,7 +94,7 @@ class Base(core.Surface):
     def declined(self, x):
         if not ok_input(x):
             return True
-        return (x["type"] in TYPED_BASE) != self.typed
+        return (x["type"] in live_types()) != self.typed
 
     def impl(self, x):
         if self.declined(x):
@@ -400,6 +402,49 @@ TYPED_BASE = {
     "AWS::SNS::TopicPolicy": {"Topics": ["arn:aws:sns:eu-west-1:123456789012:t"]},
     "AWS::SQS::QueuePolicy": {"Queues": ["https://sqs.eu-west-1.amazonaws.com/123456789012/q"]},
 }
+def live_types():
+    """the modelled type strings of the LIVE schema (the 18 above + any modelled since)"""
+    return set(schema_paths())
+
+
+def typed_base(t, rng):
+    """a valid Properties object of modelled type t WITHOUT its document-typed fields: by hand for the 18 classes this file was written
+    against, drawn from the live schema (schemagen) for a class modelled since"""
+    if t in TYPED_BASE:
+        return copy.deepcopy(TYPED_BASE[t])
+    g = schemagen.Gen(random.Random(f"c13-base/{t}/{rng.random()}"), fn_rate=0.0, opt_rate=0.3)
+    res = g.resource((), type_string=t)
+    props = res.get("Properties") or {}
+    for path, _ in schema_paths()[t]:
+        props.pop(path[:-2] if path.endswith("[]") else path, None)
+    return props
+
+
+def required_doc_fields(t):
+    if t in REQUIRED_DOC:
+        return {REQUIRED_DOC[t]}
+    if t in TYPED_BASE:
+        return set()
+    cls = dict(schemagen.table()["modelled"])[t]
+    pf = [f for f in schemagen.table()["classes"][cls]["fields"] if f[0] == "Properties"]
+    names = set()
+
+    def models_in(ty):
+        if isinstance(ty, (list, tuple)):
+            if len(ty) == 2 and ty[0] == "model":
+                names.add(ty[1])
+            for z in ty:
+                models_in(z)
+    if pf:
+        models_in(pf[0][3])
+    req = set()
+    for n in names:
+        for f in schemagen.table()["classes"].get(n, {}).get("fields", []):
+            if f[1] == "DRequired":
+                req.add(f[0])
+    return req
+
+
 REQUIRED_DOC = {"AWS::IAM::ManagedPolicy": "PolicyDocument", "AWS::IAM::Policy": "PolicyDocument", "AWS::IAM::Role": "AssumeRolePolicyDocument",
                 "AWS::S3::BucketPolicy": "PolicyDocument", "AWS::SNS::TopicPolicy": "PolicyDocument", "AWS::SQS::QueuePolicy": "PolicyDocument"}
 _PATHS = None
@@ -415,12 +460,12 @@ def schema_paths():
 
 
 def typed_props(rng, sids, t):
-    props = copy.deepcopy(TYPED_BASE[t])
+    props = typed_base(t, rng)
     for path, kind in schema_paths()[t]:
         field, is_list = (path[:-2], True) if path.endswith("[]") else (path, False)
         if "." in field:
             raise RuntimeError(f"nested schema path {path}: extend typed_props")
-        required = REQUIRED_DOC.get(t) == field
+        required = field in required_doc_fields(t)
         if not required and rng.random() < 0.35:
             continue
         if kind == "Doc":
@@ -449,7 +494,7 @@ def describe_tags(x):
     if not isinstance(x, dict) or "props" not in x:
         return t
     k = key(x["props"])
-    t.add("typed" if x.get("type") in TYPED_BASE else "generic")
+    t.add("typed" if x.get("type") in live_types() else "generic")
     if "PolicyName" in k:
         t.add("named-wrapper")
     if '\\"Statement\\"' in k:
@@ -478,7 +523,7 @@ def cases(rng, tier, shard, nshards):
     if shard == 0:
         yield from corpus()
     n = {"quick": 900, "thorough": 14000}[tier]
-    types = sorted(TYPED_BASE)
+    types = sorted(live_types())
     if shard == 0:
         # every modelled type with each of its document positions holding the DEGENERATE documents: no statements at all, one bare
         # statement, a wrapper list of length 0 / 1 (seeded change C13-r6Am2: PolicyDocument.__len__ made a statement-less document
@@ -486,7 +531,7 @@ def cases(rng, tier, shard, nshards):
         for t in types:
             for variant in ("empty", "single"):
                 sids = Sids(rng)
-                props = copy.deepcopy(TYPED_BASE[t])
+                props = typed_base(t, rng)
                 for path, kind in schema_paths()[t]:
                     field = path[:-2] if path.endswith("[]") else path
                     body = [] if variant == "empty" else statement(rng, sids)
@@ -502,7 +547,7 @@ def cases(rng, tier, shard, nshards):
             t = types[(k // 3 + shard) % len(types)]
             yield TYPED, {"type": t, "props": typed_props(rng, sids, t)}
             continue
-        x = {"type": rng.choice(TYPE_NAMES), "props": generic_props(rng, sids)}
+        x = {"type": rng.choice(schemagen.unmodelled(TYPE_NAMES)), "props": generic_props(rng, sids)}
         yield SPEC, x
         if k % 3 == 1:
             yield COND, x
@@ -510,7 +555,7 @@ def cases(rng, tier, shard, nshards):
             yield IMPL, x
         if k % 150 == 2:
             # deliberate F16 stream: the code's reading still agrees with the faithful model; the property's reading does not
-            y = {"type": rng.choice(TYPE_NAMES), "props": generic_props(rng, Sids(rng), hidden=True)}
+            y = {"type": rng.choice(schemagen.unmodelled(TYPE_NAMES)), "props": generic_props(rng, Sids(rng), hidden=True)}
             yield IMPL, y
             yield SPEC, y
 
